@@ -180,6 +180,11 @@ class Gen:
         if cat == 'kex' and r.random() < 0.3:
             l.append(r.choice(self.gss_instances()))
         r.shuffle(l)
+        # empty names: an empty name-list decodes to [''], a trailing comma or 'a,,b' yields '' elements
+        k = r.random()
+        if k < 0.04: l = ['']
+        elif k < 0.12: l.insert(r.randrange(len(l) + 1), '')
+        elif k < 0.16: l.append('')
         return l
 
     def banner(self):
